@@ -85,6 +85,27 @@ def guards(body, bb, eb=None):
     return out
 
 
+def switch_outcomes(body, eb=None):
+    """every switch arm with an unambiguous target, normalised: [(switch bb, guard, target bb)].
+    Unlike `guards` (what dominates a block) this gives the *edge*, so a rule can ask where a
+    particular outcome leads (must-reach rules)."""
+    eb = eb or ExprBuilder(body)
+    out = []
+    for sb, t, arms in body.switch_edges():
+        if body.is_cleanup(sb):
+            continue
+        cnt = {}
+        for v, tg in arms:
+            cnt[tg] = cnt.get(tg, 0) + 1
+        for v, tg in arms:
+            if cnt[tg] != 1:
+                continue
+            val = ("not", [x for x, _ in arms if x is not None]) if v is None else v
+            eb.at(sb)
+            out.append((sb, norm_guard(body, eb, t, val), tg))
+    return out
+
+
 def negate(g):
     k = g[0]
     flip = {"ok": "err", "err": "ok", "some": "none", "none": "some", "true": "false", "false": "true"}
